@@ -27,6 +27,9 @@ pub struct Params {
     pub chunks: usize,
     /// the first chunk of every task is larger than one frame can carry (70 000 bytes): the session splits it
     pub big_first_chunk: bool,
+    /// > 0: the transport holds 10 bytes and the peer takes them once every this many seconds of virtual time
+    /// (40 rounds, then everything): every write is cut in mid-frame by long stalls
+    pub stall_s: u64,
 }
 
 #[derive(Clone, Debug, PartialEq)]
@@ -41,9 +44,10 @@ pub fn make(p: Params) -> crate::ctl::ScenarioFn {
         let p = p.clone();
         async move {
             let mut out = Outcome::default();
+            let scenario_start = tokio::time::Instant::now();
             let link = peer_link(
                 PipeCfg::new("s2c"),
-                PipeCfg::new("c2s").menus(false, p.write_menu),
+                if p.stall_s > 0 { PipeCfg::new("c2s").menus(false, p.write_menu).capacity(10) } else { PipeCfg::new("c2s").menus(false, p.write_menu) },
             );
             let wire = link.peer.out.clone();
             let sess = match start_client_session(
@@ -61,7 +65,24 @@ pub fn make(p: Params) -> crate::ctl::ScenarioFn {
                     return out;
                 }
             };
-            tokio::spawn(link.peer.sink());
+            {
+                let stall = p.stall_s;
+                let peer = link.peer;
+                tokio::spawn(async move {
+                    let mut peer = peer;
+                    if stall > 0 {
+                        // a trickle: 10 bytes are taken every `stall` seconds for 40 rounds, then everything
+                        for _ in 0..40 {
+                            tokio::time::sleep(Duration::from_secs(stall)).await;
+                            if !peer.read_some().await {
+                                break;
+                            }
+                        }
+                        peer.out.set_capacity(usize::MAX);
+                    }
+                    peer.sink().await
+                });
+            }
             // per-task submission logs (only submissions that returned Ok)
             let logs: Arc<Mutex<Vec<Vec<Sub>>>> =
                 Arc::new(Mutex::new(vec![vec![]; p.openers + 2]));
@@ -163,6 +184,7 @@ pub fn make(p: Params) -> crate::ctl::ScenarioFn {
                 let _ = h.await;
             }
             // quiescence: let the forwarding task drain
+            tokio::time::sleep_until(scenario_start + Duration::from_secs(5 + 41 * p.stall_s)).await;
             tokio::time::sleep(Duration::from_secs(5)).await;
 
             // ---- oracle on the decoded wire
@@ -317,7 +339,7 @@ fn short(v: &[Sub]) -> Vec<String> {
 
 pub fn params_json(p: &Params) -> serde_json::Value {
     json!({"scheme": p.scheme_name, "openers": p.openers, "forwarder_of": if p.forwarder_of==usize::MAX {-1} else {p.forwarder_of as i64},
-           "heartbeat_writer": p.heartbeat_writer, "pre_packets": p.pre_packets, "write_menu": p.write_menu, "chunks": p.chunks, "big_first_chunk": p.big_first_chunk})
+           "heartbeat_writer": p.heartbeat_writer, "pre_packets": p.pre_packets, "write_menu": p.write_menu, "chunks": p.chunks, "big_first_chunk": p.big_first_chunk, "stall_s": p.stall_s})
 }
 
 pub fn all_params(tier: Tier) -> Vec<(Params, usize)> {
@@ -348,13 +370,14 @@ pub fn all_params(tier: Tier) -> Vec<(Params, usize)> {
                         write_menu: wm,
                         chunks: 2,
                         big_first_chunk: false,
+                        stall_s: 0,
                     },
                     if tier.is_thorough() { bt } else { bq },
                 ));
                 // the same race with a first chunk that needs several frames (direct writers and the forwarding task)
                 if !hb && !wm && pre == 0 && scheme_name != "tiny" {
                     v.push((
-                        Params { scheme, scheme_name, openers: 2, forwarder_of: fw, heartbeat_writer: false, pre_packets: 0, write_menu: false, chunks: 2, big_first_chunk: true },
+                        Params { scheme, scheme_name, openers: 2, forwarder_of: fw, heartbeat_writer: false, pre_packets: 0, write_menu: false, chunks: 2, big_first_chunk: true, stall_s: 0 },
                         if tier.is_thorough() { 2 } else { 1 },
                     ));
                 }
@@ -464,6 +487,24 @@ pub fn make_client_race(n: usize, scheme: &'static str, pre_request: bool) -> cr
         drop(w);
         out
     })
+}
+
+/// Long stalls in mid-frame: the transport takes 10 bytes every 16 / 31 / 61 s (40 rounds), then everything.
+pub fn stall_params(tier: Tier) -> Vec<(Params, usize)> {
+    let mut v = vec![];
+    for (scheme, scheme_name) in [(STOP0, "stop0"), (DEFAULT, "default")] {
+        for fw in [usize::MAX, 1] {
+            for hb in [false, true] {
+                for stall_s in [16u64, 31, 61] {
+                    if !tier.is_thorough() && scheme_name == "default" && stall_s != 61 {
+                        continue;
+                    }
+                    v.push((Params { scheme, scheme_name, openers: 2, forwarder_of: fw, heartbeat_writer: hb, pre_packets: 0, write_menu: false, chunks: 2, big_first_chunk: false, stall_s }, if tier.is_thorough() { 1 } else { 0 }));
+                }
+            }
+        }
+    }
+    v
 }
 
 /// Server role: a real server session whose receive loop answers (SERVER_SETTINGS, UPDATE_PADDING_SCHEME, HEART_RESP)
@@ -638,6 +679,7 @@ pub fn client_items(tier: Tier) -> Vec<DxItem> {
 pub fn items(tier: Tier) -> Vec<DxItem> {
     all_params(tier)
         .into_iter()
+        .chain(stall_params(tier))
         .map(|(p, b)| {
             let mut it = DxItem::new(params_json(&p), make(p), b);
             // "everyone else runs to completion first" as one deviation
